@@ -292,7 +292,24 @@ func c20Middleware(c *Ctx) {
 			ip := c.Rng.PickS("1.2.3.4", "5.6.7.8", "192.168.5.9", "2001:db8::1", "2001:db8::2", "2001:db8::25", "2001:db8::a", "2001:db8:ffff::10", "::1", "1.2.3.40")
 			req := httptest.NewRequest("GET", "/x", nil)
 			if c.Rng.Bool() {
-				req.Header.Set("X-Forwarded-For", ip)
+				// one address, written the ways proxies write it: other spellings of an IPv6 address, a blank in front,
+				// the list form "client, proxy1, proxy2" — it is one client with one quota
+				sp := ip
+				switch c.Rng.Intn(5) {
+				case 0:
+					if p := net.ParseIP(ip); p != nil && strings.Contains(ip, ":") {
+						b := p.To16()
+						sp = fmt.Sprintf("%x:%x:%x:%x:%x:%x:%x:%x", uint16(b[0])<<8|uint16(b[1]), uint16(b[2])<<8|uint16(b[3]), uint16(b[4])<<8|uint16(b[5]), uint16(b[6])<<8|uint16(b[7]),
+							uint16(b[8])<<8|uint16(b[9]), uint16(b[10])<<8|uint16(b[11]), uint16(b[12])<<8|uint16(b[13]), uint16(b[14])<<8|uint16(b[15]))
+					}
+				case 1:
+					sp = strings.ToUpper(ip)
+				case 2:
+					sp = ip + ", 10.0.0.1, 10.0.0.2"
+				case 3:
+					sp = " " + ip
+				}
+				req.Header.Set("X-Forwarded-For", sp)
 			} else if strings.Contains(ip, ":") {
 				req.RemoteAddr = "[" + ip + "]:1234"
 			} else {
